@@ -46,12 +46,15 @@ def run(ctx, seed_off, tier, limit=3):
         n += N
         if N >= 3:
             keys.add((N, SR, kind, fc, order, g, inv))
-        f = numeric.c12_oracle(N, SR, kind, fc, order, g, inverse=inv)
-        if not f and rng.random() < 0.5:
-            f = numeric.c12_custom_oracle(N, SR, rng)
-            n += 2 * N
-        if not f and rng.random() < 0.2:
-            f = numeric.c12_linearity(N, SR, rng)
+        try:
+            f = numeric.c12_oracle(N, SR, kind, fc, order, g, inverse=inv)
+            if not f and rng.random() < 0.5:
+                f = numeric.c12_custom_oracle(N, SR, rng)
+                n += 2 * N
+            if not f and rng.random() < 0.2:
+                f = numeric.c12_linearity(N, SR, rng)
+        except Exception as e:  # noqa: BLE001 - the implementation raised on a valid call
+            f = [f"ripasso raised {type(e).__name__} on a valid call (N={N}, SR={SR}): {str(e)[:120]}"]
         if f:
             found.append((f[0], {"numeric_case": {"N": N, "SR": SR, "kind": kind, "f_cut": fc, "order": order, "DCgain": g,
                                                   "inverse": inv}, "oracle_failures": f}))
